@@ -108,6 +108,27 @@ type FFItem struct {
 	To     int    `json:"to"`
 	Stride int    `json:"stride"`
 	N      int    `json:"n,omitempty"` // 3: the three-validator variant of the scenario (default 4)
+	Steps  int    `json:"steps,omitempty"`  // length of the base history after the join request (default 48)
+	Server int    `json:"server,omitempty"` // which validator's response is the base (default 1)
+}
+
+// c12Bases: further (history length, serving validator) pairs whose anchors lie elsewhere: an early one (the joiner
+// accepted but not yet effective: the frame's peer-set history has a future entry), later ones (the joiner effective;
+// more blocks, other roots), served by other validators than the default.
+var c12Bases = [][2]int{{12, 0}, {16, 2}, {20, 0}, {24, 2}, {28, 0}, {34, 2}}
+
+func (it FFItem) steps() int {
+	if it.Steps > 0 {
+		return it.Steps
+	}
+	return 48
+}
+
+func (it FFItem) server() int {
+	if it.Steps > 0 {
+		return it.Server
+	}
+	return 1
 }
 
 type FFResult struct {
@@ -157,9 +178,9 @@ func init() {
 				// short enough for the anchor to lie before the joiner's effective round (a three-member set)
 				x = c12BuildN(3, 26)
 			} else {
-				x = c12Build(48)
+				x = c12Build(it.steps())
 			}
-			base = validFF(x.C, 1, it.Target)
+			base = validFF(x.C, it.server(), it.Target)
 			if it.Level == "node" || it.Level == "forged-node" {
 				if x.C.Nodes[it.Target].Node.GetState() != state.CatchingUp {
 					x.C.Nodes[it.Target].Node.VTransition(state.CatchingUp)
@@ -272,6 +293,9 @@ func init() {
 				if prop == "C12" {
 					plan.FFFrom = 2 // only node 1 answers (with the tampered response)
 				}
+				if prop == "C12" && it.Steps > 0 {
+					return // further bases are presented at the core seam only
+				}
 				err = c.FastForward(it.Target, plan)
 				if c.Panic != "" {
 					res.Classes["panic (C08's subject)"]++
@@ -380,10 +404,14 @@ func init() {
 		th := ev.Tier() == "thorough"
 		rep := ev.NewReport(prop, "exploration")
 		var items []FFItem
+		var basesInfo []string
 		if prop == "C12" {
 			probe := c12Build(48)
 			base := validFF(probe.C, 1, 0)
 			probe.Close()
+			if base != nil {
+				basesInfo = append(basesInfo, fmt.Sprintf("48 steps, validator 1: block %d (round %d), %d validators, %d peer-set entries", base.Block.Index(), base.Block.RoundReceived(), len(base.Frame.Peers), len(base.Frame.PeerSets)))
+			}
 			if base == nil {
 				ev.Fail("C12: no anchor in the base scenario")
 			}
@@ -402,6 +430,26 @@ func init() {
 					}
 					for from := 0; from < n; from += chunk {
 						items = append(items, FFItem{Target: target, Level: lvl, From: from, To: from + chunk})
+					}
+				}
+			}
+			// further base triples (other anchors, other serving validators), at the core seam
+			for _, b := range c12Bases {
+				p2 := c12Build(b[0])
+				base2 := validFF(p2.C, b[1], 4)
+				p2.Close()
+				if base2 == nil {
+					basesInfo = append(basesInfo, fmt.Sprintf("%d steps, validator %d: no anchor yet", b[0], b[1]))
+					continue // no anchor yet in that history: nothing to present
+				}
+				n2 := len(tamper.Enumerate(base2, [][]byte{sim.PubOf(9)}))
+				basesInfo = append(basesInfo, fmt.Sprintf("%d steps, validator %d: block %d (round %d), %d validators, %d peer-set entries, %d substitutions", b[0], b[1], base2.Block.Index(), base2.Block.RoundReceived(), len(base2.Frame.Peers), len(base2.Frame.PeerSets), n2))
+				for _, target := range []int{4, 3} {
+					if target == 3 && !th && b[0] != 30 {
+						continue
+					}
+					for from := 0; from < n2; from += chunk {
+						items = append(items, FFItem{Target: target, Level: "core", From: from, To: from + chunk, Steps: b[0], Server: b[1]})
 					}
 				}
 			}
@@ -465,6 +513,9 @@ func init() {
 		cov["accepted"] = tot.Accepted
 		cov["refused"] = tot.Refused
 		cov["classes"] = tot.Classes
+		if len(basesInfo) > 0 {
+			cov["base_responses"] = basesInfo
+		}
 		cov["exhaustive"] = handed == len(items)
 		samples := []interface{}{}
 		for _, s := range tot.Samples {
